@@ -176,6 +176,11 @@ async fn serve_stream(
     cmd: mpsc::UnboundedSender<ConnCmd>,
 ) {
     let path = req.uri().path().to_string();
+    if inner.is_foreign(&path) {
+        // a stale emitter of an earlier case whose collector had this port: not our request
+        let _ = respond.send_response(grpc_headers(404), true);
+        return;
+    }
     let mut headers = Vec::new();
     for (k, v) in req.headers() {
         headers.push((k.as_str().to_string(), v.to_str().unwrap_or("").to_string()));
